@@ -824,6 +824,29 @@ fn tables(t: &mut Tally) {
                 }
             }
         }
+        // the name inside a longer text: behind and in front of every sweep character (among them
+        // '/', '\\', ':', NUL, the line ends and the white-space characters) and as the last / first
+        // component of path-like texts - only the 14 names themselves are file names
+        {
+            let base: String = name.iter().collect();
+            let mut chars = mc_core::chars::all();
+            chars.extend(['/', '\0', '\n', '\r']);
+            for c in chars {
+                near.push(format!("{}{}", c, base));
+                near.push(format!("{}{}", base, c));
+                near.push(format!("{}{}{}", c, c, base));
+                near.push(format!("x{}{}", c, base));
+            }
+            for pre in ["./", "../", "/", "//", "pkg-1.0/", "/var/db/pkg/pkg-1.0/", "a/b/", "./pkg/./", "+DESC/", "+", "++", "pkg-1.0:", "C:\\", "~/"] {
+                near.push(format!("{}{}", pre, base));
+            }
+            for post in ["/", "/.", "/+DESC", ".gz", ",v", ".orig", "~", "/..", "\r\n"] {
+                near.push(format!("{}{}", base, post));
+            }
+            near.push(base.to_lowercase());
+            near.push(base[1..].to_string());
+            near.push(format!("{}{}", base, base));
+        }
         for s in near {
             t.evals += 1;
             t.validated += 1;
